@@ -38,15 +38,17 @@ def vendor_value(m, pid, ac):
     return list(outs[1])
 
 
-def check_history(ctx, rep, profile, ops, lose=()):
+def check_history(ctx, rep, profile, ops, lose=(), ext=None):
     m = ctx.model
-    dev = P.PropDevice(m, profile, lose)
+    dev = P.PropDevice(m, profile, lose, ext)
     adv = [cid for cid, _ in P.PROFILES[profile]]
     full = [CAPS] + list(ops)
     st, dmp, cnt, sent, ac = P.run_impl(full, dev)
     inp = {"profile": profile, "ops": full}
     if lose:
         inp["acknowledgement_lost_for_property_writes"] = sorted(lose)
+    if ext:
+        inp["changed_on_the_appliance_by_someone_else_before_property_query_no"] = {str(k): [(hex(i), v) for i, v in x] for k, x in ext.items()}
     rep.case((profile, tuple(ops), tuple(lose)), profile + ("-ack-lost" if lose else ""))
     if st != 0:
         rep.fail("oracle", "operation-raised", inp, {"status": st})
@@ -55,7 +57,7 @@ def check_history(ctx, rep, profile, ops, lose=()):
     pending, beep = set(), 0
     log = list(dev.log)
     # re-run bookkeeping op by op using the recorded per-request log: count requests per op
-    dev2 = P.PropDevice(m, profile, lose)
+    dev2 = P.PropDevice(m, profile, lose, ext)
     C, AC = D.mods()
     C.Command._message_id = 0
     ac2 = AC(ip="10.0.0.1", device_id=123456, port=6444)
@@ -169,9 +171,21 @@ def run(ctx, rep):
             v = vals[-1]
             lossy.append((profile, [(op, v), APPLY, APPLY, REFRESH, APPLY, REFRESH], (0,)))
             lossy.append((profile, [(op, v), APPLY, (op, vals[0]), APPLY, APPLY, REFRESH], (rng.randrange(2),)))
+    # a setting is switched on and applied, then changed ON THE APPLIANCE by someone else (remote control / the unit itself); a refresh
+    # reads that back; the next apply - no setter called since - carries no property write
+    OFF = {0x42: [1], 0x18: [0], 0x43: [1], 0xE3: [0, 0], 0x48: [100], 0x0A: [0], 0x09: [0]}
+    external = []
+    for profile in P.PROFILES:
+        adv = [cid for cid, _ in P.PROFILES[profile]]
+        for op, (name, vals) in SETTERS.items():
+            pid = expected_id(adv, op) if op != 10 else None
+            if pid is None or pid not in adv:
+                continue
+            on = vals[-1] if op not in (25, 26, 27, 30) else 1
+            external.append((profile, [(op, on), APPLY, REFRESH, REFRESH, APPLY, REFRESH, APPLY], (), {1: [(pid, OFF[pid])]}))
     cases, impl = [], []
-    for profile, ops, *lose in [h + ((),) for h in hist] + lossy:
-        r = check_history(ctx, rep, profile, ops, lose[0])
+    for profile, ops, lose, ext in [h + ((), None) for h in hist] + [l + (None,) for l in lossy] + external:
+        r = check_history(ctx, rep, profile, ops, lose, ext)
         if r is not None:
             cases.append((r[0], r[1], 0))
             impl.append(r)
